@@ -292,6 +292,9 @@ class Reader:
             isamples = range(*nsel.indices(self.ns))
             flip = len(isamples) > 0
             nsel = slice(isamples[-1], isamples[0] + 1, -isamples.step) if flip else slice(0, 0)
+        if isinstance(nsel, np.integer):
+            # mtscomp only takes builtin integers as a single sample index: a numpy integer returned no sample
+            nsel = int(nsel)
         darray = self._raw[nsel, :].astype(np.float32, copy=True)[..., csel]
         if flip:
             darray = darray[::-1]
